@@ -1,5 +1,5 @@
-(* C34/Proofs.v — the reader returns d on every infoset that represents d; the writer's infoset represents d
-   when no optional is absent; hence the round trip; the witnesses for absent optionals. *)
+(* C34/Proofs.v — the reader returns d on every infoset that represents d; the writer's infoset represents d;
+   hence the round trip, on infosets and (tokenizer by contract) on text. *)
 From ZV Require Import Base.Bytes Base.Res Base.WinnowFacts C34.Model C34.Spec C34.Escape.
 From Coq Require Import Lia.
 
@@ -336,33 +336,27 @@ Section RoundTrip.
   Lemma wr_ann a : RAnn (t_ann a) a.
   Proof. constructor. Qed.
 
-  Lemma wr_arg a : arg_none sigT a = false -> RArg sigT sig_show (t_arg sigT sig_show a) a.
+  Lemma wr_arg a : RArg sigT sig_show (t_arg sigT sig_show a) a.
   Proof.
-    unfold arg_none, t_arg. intro H. destruct a as [[n|] ty [d|] anns]; cbn in H; try discriminate.
-    pose proof (RArg_i sigT sig_show (mkArg sigT (Some n) ty (Some d) anns) (map t_ann anns)
+    destruct a as [n ty d anns]. unfold t_arg. cbn [ar_name ar_ty ar_dir ar_anns].
+    pose proof (RArg_i sigT sig_show (mkArg sigT n ty d anns) (map t_ann anns)
                   (forall2_map RAnn t_ann anns (fun x _ => wr_ann x))) as Hx.
-    destruct d; exact Hx.
+    cbn [ar_name ar_ty ar_dir ar_anns] in Hx. destruct n, d as [[|]|]; exact Hx.
   Qed.
 
-  Lemma existsb_false {A} (f : A -> bool) l : existsb f l = false -> forall x, In x l -> f x = false.
+  Lemma wr_method m : RMethod sigT sig_show (t_method sigT sig_show m) m.
   Proof.
-    intros H x Hx. destruct (f x) eqn:E; [|reflexivity].
-    assert (existsb f l = true) by (apply existsb_exists; eauto). congruence.
-  Qed.
-
-  Lemma wr_method m : existsb (arg_none sigT) (m_args _ m) = false -> RMethod sigT sig_show (t_method sigT sig_show m) m.
-  Proof.
-    intro H. destruct m as [n args anns]. unfold t_method. cbn [m_name m_args m_anns] in *.
+    destruct m as [n args anns]. unfold t_method. cbn [m_name m_args m_anns].
     apply (RMethod_i sigT sig_show (mkMethod sigT n args anns)).
-    - apply forall2_map. intros a Ha. apply wr_arg. exact (existsb_false _ _ H a Ha).
+    - apply forall2_map. intros; apply wr_arg.
     - apply forall2_map. intros; apply wr_ann.
   Qed.
 
-  Lemma wr_signal m : existsb (arg_none sigT) (s_args _ m) = false -> RSignal sigT sig_show (t_signal sigT sig_show m) m.
+  Lemma wr_signal m : RSignal sigT sig_show (t_signal sigT sig_show m) m.
   Proof.
-    intro H. destruct m as [n args anns]. unfold t_signal. cbn [s_name s_args s_anns] in *.
+    destruct m as [n args anns]. unfold t_signal. cbn [s_name s_args s_anns].
     apply (RSignal_i sigT sig_show (mkSignal sigT n args anns)).
-    - apply forall2_map. intros a Ha. apply wr_arg. exact (existsb_false _ _ H a Ha).
+    - apply forall2_map. intros; apply wr_arg.
     - apply forall2_map. intros; apply wr_ann.
   Qed.
 
@@ -374,35 +368,32 @@ Section RoundTrip.
     destruct acc; exact Hx.
   Qed.
 
-  Lemma wr_iface i : iface_none sigT i = false -> RIface sigT sig_show (t_iface sigT sig_show i) i.
+  Lemma wr_iface i : RIface sigT sig_show (t_iface sigT sig_show i) i.
   Proof.
-    unfold iface_none. intro H. apply orb_false_iff in H as [Hm Hs]. destruct i as [n ms ps ss anns].
-    unfold t_iface. cbn [i_name i_methods i_props i_signals i_anns] in *.
+    destruct i as [n ms ps ss anns]. unfold t_iface. cbn [i_name i_methods i_props i_signals i_anns].
     apply (RIface_i sigT sig_show (mkIface sigT n ms ps ss anns)).
-    - apply forall2_map. intros m Hin. apply wr_method. exact (existsb_false _ _ Hm m Hin).
+    - apply forall2_map. intros; apply wr_method.
     - apply forall2_map. intros; apply wr_prop.
-    - apply forall2_map. intros m Hin. apply wr_signal. exact (existsb_false _ _ Hs m Hin).
+    - apply forall2_map. intros; apply wr_signal.
     - apply forall2_map. intros; apply wr_ann.
   Qed.
 
-  Theorem writer_conforms d : forall tag, node_none sigT d = false -> R tag (t_node sigT sig_show tag d) d.
+  (* the writer's infoset represents d: for every document *)
+  Theorem writer_conforms d : forall tag, R tag (t_node sigT sig_show tag d) d.
   Proof.
-    induction d as [name ifs ns IH] using node_ind'. intros tag H. cbn [node_none] in H.
-    apply orb_false_iff in H as [H Hns]. apply orb_false_iff in H as [Hname Hifs].
-    destruct name as [v|]; [|discriminate]. cbn [t_node opt_text].
-    apply (RNode_i sigT sig_show tag (Some v) ifs ns).
-    - apply forall2_map. intros i Hin. apply wr_iface. exact (existsb_false _ _ Hifs i Hin).
-    - apply forall2_map. intros x Hin. rewrite Forall_forall in IH. apply IH; [exact Hin|].
-      exact (existsb_false _ _ Hns x Hin).
+    induction d as [name ifs ns IH] using node_ind'. intro tag. cbn [t_node].
+    pose proof (RNode_i sigT sig_show tag name ifs ns (map (t_iface sigT sig_show) ifs) (map (t_node sigT sig_show (B "node")) ns)) as Hx.
+    destruct name; apply Hx.
+    1,3: apply forall2_map; intros; apply wr_iface.
+    all: apply forall2_map; intros x Hin; rewrite Forall_forall in IH; now apply IH.
   Qed.
 
   (* ---- the round trip on infosets ---- *)
-  Theorem roundtrip_partial d : wf d -> ~ Known_C34 sigT d -> rd (fun v => Ok v) (wr d) = Ok d.
+  Theorem roundtrip d : wf d -> rd (fun v => Ok v) (wr d) = Ok d.
   Proof.
-    intros Hwf Hk. unfold Known_C34 in Hk. assert (Hn : node_none sigT d = false) by (destruct (node_none sigT d); congruence).
-    rewrite <- (enc_tree_id (wr d)).
+    intro Hwf. rewrite <- (enc_tree_id (wr d)).
     apply (reader_correct (fun x => x) (fun v => Ok v) (fun s => eq_refl) d (B "Node") (wr d) Hwf).
-    now apply writer_conforms.
+    apply writer_conforms.
   Qed.
 End RoundTrip.
 
@@ -472,8 +463,9 @@ Section Text.
   Proof. unfold t_ann. cbn [enc_tree map fst snd]. rewrite printable_elem. cbn. now rewrite !value_ok_escape. Qed.
   Lemma pr_arg a : printable (X (t_arg sigT sig_show a)) = true.
   Proof.
-    unfold t_arg. cbn [enc_tree map fst snd]. rewrite printable_elem. cbn [forallb fst snd]. rewrite !value_ok_escape.
-    rewrite (forallb_map_printable t_ann _ pr_ann). reflexivity.
+    unfold t_arg. cbn [enc_tree]. rewrite printable_elem.
+    rewrite (forallb_map_printable t_ann _ pr_ann), andb_true_r.
+    destruct (ar_name sigT a), (ar_dir sigT a); cbn; now rewrite !value_ok_escape.
   Qed.
   Lemma pr_method m : printable (X (t_method sigT sig_show m)) = true.
   Proof.
@@ -498,12 +490,12 @@ Section Text.
   Qed.
   Lemma pr_node d : forall tag, name_ok tag = true -> printable (X (t_node sigT sig_show tag d)) = true.
   Proof.
-    induction d as [name ifs ns IH] using node_ind'. intros tag Ht. cbn [t_node enc_tree map fst snd].
-    rewrite printable_elem, Ht. cbn [forallb fst snd]. rewrite value_ok_escape.
-    rewrite !map_app, forallb_app, (forallb_map_printable _ _ pr_iface).
+    induction d as [name ifs ns IH] using node_ind'. intros tag Ht. cbn [t_node enc_tree].
+    rewrite printable_elem, Ht.
     assert (Hn : forallb printable (map X (map (t_node sigT sig_show (B "node")) ns)) = true).
     { induction IH as [|x l Hx _ IHl]; cbn [map forallb]; [reflexivity|]. now rewrite (Hx (B "node") eq_refl), IHl. }
-    rewrite Hn. reflexivity.
+    rewrite !map_app, forallb_app, (forallb_map_printable _ _ pr_iface), Hn.
+    destruct name; cbn; now rewrite ?value_ok_escape.
   Qed.
 
   (* quick-xml's tokenizer, by contract: it reads back what the raw printer wrote for a printable tree,
@@ -515,52 +507,15 @@ Section Text.
   Definition from_str (text : bytes) : res xerr (node sigT) :=
     match tokenize text with Some r => rd unescape r | None => Err EXml end.
 
-  Theorem text_roundtrip_partial d : wf d -> ~ Known_C34 sigT d -> from_str (to_writer sigT sig_show d) = Ok d.
+  Theorem text_roundtrip d : wf d -> from_str (to_writer sigT sig_show d) = Ok d.
   Proof.
-    intros Hwf Hk. unfold from_str, to_writer, to_tree. rewrite print_is_raw.
+    intro Hwf. unfold from_str, to_writer, to_tree. rewrite print_is_raw.
     rewrite (tokenize_print _ (pr_node d (B "Node") eq_refl)).
-    assert (Hn : node_none sigT d = false) by (unfold Known_C34 in Hk; destruct (node_none sigT d); congruence).
     apply (reader_correct sigT sig_parse sig_show valid_member valid_interface valid_property escape unescape
              unescape_escape d (B "Node") (wr d) Hwf).
-    now apply writer_conforms.
+    apply writer_conforms.
   Qed.
 End Text.
-
-(* ---------------------------------------------------------------- witnesses: an absent optional does not come back *)
-Section Refuted.
-  Variable sigT : Type.
-  Variable sig_parse : bytes -> option sigT.
-  Variable sig_show : sigT -> bytes.
-  Variable valid_member valid_interface valid_property : bytes -> bool.
-  Notation wf := (wf_node sigT sig_show sig_parse valid_member valid_interface valid_property).
-  Notation rd := (of_node sigT sig_parse valid_member valid_interface valid_property (fun v => Ok v)).
-  Notation wr := (to_tree sigT sig_show).
-
-  Definition d_noname : node sigT := Node sigT None [] [].
-
-  Lemma none_name_witness :
-    wf d_noname /\ wr d_noname = Elem (B "Node") [(B "name", [])] [] /\
-    rd (wr d_noname) = Ok (Node sigT (Some []) [] []) /\ Known_C34 sigT d_noname.
-  Proof. repeat split; try constructor. Qed.
-
-  Lemma none_option_refuted : exists d, wf d /\ rd (wr d) <> Ok d.
-  Proof. exists d_noname. split; [repeat constructor|]. cbn. discriminate. Qed.
-
-  (* an argument without direction (every signal argument in practice): the written document is rejected *)
-  Definition d_nodir (m : bytes) (s : sigT) : node sigT :=
-    Node sigT (Some (B "/")) [mkIface sigT (B "a.b") [] [] [mkSignal sigT m [mkArg sigT (Some (B "x")) s None []] []] []] [].
-
-  Lemma none_direction_rejected m s : rd (wr (d_nodir m s)) = Err EXml.
-  Proof.
-    unfold d_nodir, to_tree.
-    repeat (cbn; unfold children, check_attrs, get_attr, req_attr, parse_name, parse_sig).
-    destruct (valid_interface _); [|reflexivity].
-    repeat (cbn; unfold children, check_attrs, get_attr, req_attr, parse_name, parse_sig).
-    destruct (valid_member m); [|reflexivity].
-    repeat (cbn; unfold children, check_attrs, get_attr, req_attr, parse_name, parse_sig).
-    destruct (sig_parse (sig_show s)); reflexivity.
-  Qed.
-End Refuted.
 
 (* ---------------------------------------------------------------- every document the reader returns is well formed *)
 Section Parsed.
@@ -659,3 +614,11 @@ Section Parsed.
       intros t d Hin Hd. rewrite Forall_forall in IH. apply (IH t); [|exact Hd]. apply filter_In in Hin. tauto.
   Qed.
 End Parsed.
+
+(* whatever the reader accepts survives writing and re-reading *)
+Corollary reread_of_parsed sigT sig_parse sig_show vm vi vp :
+  (forall b s, sig_parse b = Some s -> sig_parse (sig_show s) = Some s) ->
+  forall t (d : node sigT),
+    of_node sigT sig_parse vm vi vp (fun v => Ok v) t = Ok d ->
+    of_node sigT sig_parse vm vi vp (fun v => Ok v) (to_tree sigT sig_show d) = Ok d.
+Proof. intros Hs t d H. apply roundtrip. exact (parsed_wf sigT sig_parse sig_show vm vi vp _ Hs t d H). Qed.
